@@ -108,9 +108,12 @@ struct MapAd {
     static int key_index(const char* k) { for (size_t i = 0; i < KS.skeys.size(); i++) if (KS.skeys[i] == k) return (int)i; return -1; }
     static void iterate(const T& t, std::vector<std::pair<int, int>>& out, std::vector<int>& arr) {
         for (MapItem<uint64_t>* it = t.next(NULL); it; it = t.next(it)) out.push_back({key_index(it->key), (int)(it->value - 100)});
+        // to_array APPENDS to the caller's array: two entries are already there and must survive in place
         Array<uint64_t> a = {};
+        a.append(7); a.append(9);
         t.to_array(a);
-        for (uint64_t i = 0; i < a.count; i++) arr.push_back((int)(a[i] - 100));
+        if (a.count < 2 || a[0] != 7 || a[1] != 9 || a.count != 2 + t.count) arr.push_back(-99);
+        for (uint64_t i = 2; i < a.count; i++) arr.push_back((int)(a[i] - 100));
         a.clear();
     }
     static bool occupied(const T& t, uint64_t s) { return t.items[s].key != NULL; }
@@ -128,8 +131,11 @@ struct SetAd {
     static void iterate(const T& t, std::vector<std::pair<int, int>>& out, std::vector<int>& arr) {
         for (SetItem<Tag>* it = t.next(NULL); it; it = t.next(it)) out.push_back({key_index(it->value), 1});
         Array<Tag> a = {};
+        const Tag s0 = make_tag(4000, 1), s1 = make_tag(4001, 2);   // entries already in the caller's array: to_array appends
+        a.append(s0); a.append(s1);
         t.to_array(a);
-        for (uint64_t i = 0; i < a.count; i++) arr.push_back(key_index(a[i]) >= 0 ? 1 : -1);
+        if (a.count < 2 || a[0] != s0 || a[1] != s1 || a.count != 2 + t.count) arr.push_back(-99);
+        for (uint64_t i = 2; i < a.count; i++) arr.push_back(key_index(a[i]) >= 0 ? 1 : -1);
         a.clear();
     }
     static bool occupied(const T& t, uint64_t s) { return t.items[s].valid; }
@@ -309,7 +315,7 @@ struct TableSys {
         std::sort(arr.begin(), arr.end());
         std::sort(wantarr.begin(), wantarr.end());
         if (it != want) { fail(o, hist, op, "iteration", "next() iteration does not yield the model's entries"); return true; }
-        if (arr != wantarr) { fail(o, hist, op, "to_array", "to_array does not yield the model's values"); return true; }
+        if (arr != wantarr) { fail(o, hist, op, "to_array", "to_array does not append exactly the model's values to the caller's array (entries already there must stay)"); return true; }
         R->count("cases");
         if (o.relocated || o.wrapped || o.grew_after_del) R->count("nontrivial");
         if (o.relocated) R->count("tbl_hist_with_relocating_delete");
